@@ -93,6 +93,18 @@ class Runner:
             kind = op[0]
             if kind == "child":
                 await self.child(op[1], ctx, m, live)
+            elif kind == "child_raising":
+                await self.child(op[1], ctx, m, live, raising=True)
+            elif kind == "reenter":
+                before = self.snapshot(ctx)
+                try:
+                    await ctx.__aenter__()
+                except RuntimeError:
+                    pass
+                else:
+                    raise Violation("C13", "an open context could be entered a second time")
+                if self.snapshot(ctx) != before:
+                    raise Violation("C13", f"rejected re-entry changed the context: {before} -> {self.snapshot(ctx)}")
             elif kind == "unentered":
                 c = Context()
                 mm = MCtx(m)
@@ -100,18 +112,24 @@ class Runner:
             else:
                 await self.step(op, ctx, m, live, "open")
 
-    async def child(self, ops, parent, pm, live):
+    async def child(self, ops, parent, pm, live, raising=False):
         ctx = Context()
         m = MCtx(pm)
         tx, rx = create_memory_object_stream(10000)
         closing_ops = [o for o in ops if o[0] == "at_teardown"]
         ops = [o for o in ops if o[0] != "at_teardown"]
-        with ctx.resource_added._subscribe(tx):
-            live_entry = (ctx, m, rx)
+        live_entry = (ctx, m, rx)
+        pending = None
+
+        async def body():
             async with ctx:
                 m.state = "open"
                 self.check_view(ctx, m, "after entering")
                 live.append(live_entry)
+                if raising:
+                    def boom():
+                        raise RuntimeError("teardown-boom")
+                    ctx.add_teardown_callback(boom)
                 if closing_ops:
                     async def during_teardown():
                         m.state = "closing"
@@ -124,11 +142,25 @@ class Runner:
                 if ctx.closed:
                     raise Violation("C13", "closed is True before teardown began")
                 await self.block(ops, ctx, m, live)
+
+        with ctx.resource_added._subscribe(tx):
+            try:
+                await body()
+            except BaseExceptionGroup as g:
+                if raising and "teardown-boom" in repr(g) and "Violation" not in repr(g):
+                    pending = None
+                else:
+                    pending = g
+            except BaseException as e:
+                pending = e
+        if live_entry in live:
+            live.remove(live_entry)
+        if pending is not None:
+            raise pending
         m.state = "closed"
-        live.remove(live_entry)
         if not ctx.closed:
             raise Violation("C13", "context not closed after the block was left")
-        await self.ops_in_state(ctx, m, "closed")
+        await self.ops_in_state(ctx, m, "closed (teardown raised)" if raising else "closed")
 
     async def ops_in_state(self, ctx, m, label):
         """every operation must raise RuntimeError and change nothing (never entered / closed)"""
@@ -325,7 +357,9 @@ def gen_ops(rnd, depth, n):
             sub = gen_ops(rnd, depth - 1, rnd.randint(1, 5))
             if rnd.random() < 0.4:
                 sub.append(("at_teardown", gen_ops(rnd, 0, rnd.randint(1, 3))))
-            ops.append(("child", sub))
+            ops.append(("child_raising" if rnd.random() < 0.2 else "child", sub))
+        elif r < 0.97:
+            ops.append(("reenter",))
         elif depth > 0:
             ops.append(("unentered",))
     return ops
